@@ -4,6 +4,7 @@ package c09
 import (
 	"context"
 	"fmt"
+	"sort"
 	"strings"
 	"sync"
 	"testing"
@@ -373,4 +374,229 @@ func min(a, b int) int {
 		return a
 	}
 	return b
+}
+
+// ---------- registrations after Run: handlers started later run everything registered before they start ----------
+
+func TestLateRegistrations(t *testing.T) {
+	rapid.Check(t, func(t *rapid.T) {
+		router, err := message.NewRouter(message.RouterConfig{CloseTimeout: 5 * time.Second}, watermill.NopLogger{})
+		if err != nil {
+			t.Fatalf("NewRouter: %v", err)
+		}
+		var mu sync.Mutex
+		traces := map[string][]string{}
+		id := 0
+		mk := func() (int, message.HandlerMiddleware) {
+			id++
+			my := id
+			return my, func(h message.HandlerFunc) message.HandlerFunc {
+				return func(msg *message.Message) ([]*message.Message, error) {
+					hn := msg.Metadata.Get("handler")
+					mu.Lock()
+					traces[hn] = append(traces[hn], fmt.Sprintf("enter %d", my))
+					mu.Unlock()
+					out, err := h(msg)
+					mu.Lock()
+					traces[hn] = append(traces[hn], fmt.Sprintf("leave %d", my))
+					mu.Unlock()
+					return out, err
+				}
+			}
+		}
+		var routerLevel []int
+		addRouterLevel := func(label string) {
+			n := rapid.IntRange(0, 3).Draw(t, label)
+			var ms []message.HandlerMiddleware
+			for i := 0; i < n; i++ {
+				mid, m := mk()
+				routerLevel = append(routerLevel, mid)
+				ms = append(ms, m)
+			}
+			if len(ms) > 0 {
+				if rapid.Bool().Draw(t, "oneCall") {
+					router.AddMiddleware(ms...)
+				} else {
+					for _, m := range ms {
+						router.AddMiddleware(m)
+					}
+				}
+			}
+		}
+		type hT struct {
+			name     string
+			sub      *lib.ScriptSub
+			expected []int
+		}
+		addHandler := func(name string) *hT {
+			h := &hT{name: name, sub: lib.NewScriptSub("")}
+			handle := router.AddNoPublisherHandler(name, "in", h.sub, func(msg *message.Message) error {
+				mu.Lock()
+				traces[name] = append(traces[name], "handler")
+				mu.Unlock()
+				return nil
+			})
+			own := rapid.IntRange(0, 2).Draw(t, "ownMiddlewares")
+			var ownIDs []int
+			for i := 0; i < own; i++ {
+				mid, m := mk()
+				ownIDs = append(ownIDs, mid)
+				handle.AddMiddleware(m)
+			}
+			// nesting = registration order over router-level (so far, plus those added before it starts) and own
+			h.expected = ownIDs
+			return h
+		}
+		probe := func(h *hT, all []int) {
+			if !h.sub.WaitSubs(1, lib.Live) {
+				t.Fatalf("harness: handler %s not subscribed", h.name)
+			}
+			m := message.NewMessage("m", nil)
+			m.Metadata["handler"] = h.name
+			d, ok := h.sub.Subs()[0].Emit(m, "", 0, lib.Live)
+			if !ok {
+				t.Fatalf("harness: message not taken")
+			}
+			if acked, settled := d.Wait(2 * lib.Live); !settled || !acked {
+				t.Fatalf("violation: message of handler %s not acked", h.name)
+			}
+			ids := append(append([]int{}, all...), h.expected...)
+			sort.Ints(ids)
+			var want []string
+			for _, i := range ids {
+				want = append(want, fmt.Sprintf("enter %d", i))
+			}
+			want = append(want, "handler")
+			for k := len(ids) - 1; k >= 0; k-- {
+				want = append(want, fmt.Sprintf("leave %d", ids[k]))
+			}
+			mu.Lock()
+			got := strings.Join(traces[h.name], " ")
+			traces[h.name] = nil
+			mu.Unlock()
+			if got != strings.Join(want, " ") {
+				t.Fatalf("violation: handler %q (started after %d router-level registrations) ran [%s], expected [%s]", h.name, len(all), got, strings.Join(want, " "))
+			}
+		}
+		addRouterLevel("routerLevelBeforeRun")
+		first := addHandler("first")
+		go router.Run(context.Background())
+		select {
+		case <-router.Running():
+		case <-time.After(lib.Live):
+			t.Fatalf("harness: router did not start")
+		}
+		defer func() {
+			done := make(chan struct{})
+			go func() { router.Close(); close(done) }()
+			select {
+			case <-done:
+			case <-time.After(lib.Live):
+			}
+		}()
+		probe(first, append([]int{}, routerLevel...))
+		phases := rapid.IntRange(1, 3).Draw(t, "latePhases")
+		canon := fmt.Sprintf("late|%d|", len(routerLevel))
+		for ph := 0; ph < phases; ph++ {
+			if rapid.Bool().Draw(t, "handlerLevelOnlyThisPhase") {
+				// no router-level registration in this phase
+			} else {
+				addRouterLevel("routerLevelLate")
+			}
+			n := rapid.IntRange(1, 2).Draw(t, "lateHandlers")
+			var hs []*hT
+			for i := 0; i < n; i++ {
+				hs = append(hs, addHandler(fmt.Sprintf("late-%d-%d", ph, i)))
+			}
+			if err := router.RunHandlers(context.Background()); err != nil {
+				t.Fatalf("RunHandlers: %v", err)
+			}
+			for _, h := range hs {
+				probe(h, append([]int{}, routerLevel...))
+			}
+			canon += fmt.Sprintf("%d:%d;", len(routerLevel), n)
+		}
+		lib.Case(canon, true, "late-registrations")
+		lib.Sample(map[string]any{"test": "LateRegistrations", "case": canon})
+	})
+}
+
+// ---------- several handlers on ONE subscriber that is itself a message-transform decorator ----------
+
+func TestSharedDecoratedSubscriber(t *testing.T) {
+	rapid.Check(t, func(t *rapid.T) {
+		router, err := message.NewRouter(message.RouterConfig{CloseTimeout: 5 * time.Second}, watermill.NopLogger{})
+		if err != nil {
+			t.Fatalf("NewRouter: %v", err)
+		}
+		inner := lib.NewScriptSub("")
+		tag := func(id string) func(*message.Message) {
+			return func(m *message.Message) { m.Metadata["subdec"] = m.Metadata["subdec"] + id + "," }
+		}
+		shared, err := message.MessageTransformSubscriberDecorator(tag("user"))(inner)
+		if err != nil {
+			t.Fatalf("decorator: %v", err)
+		}
+		nd := rapid.IntRange(0, 3).Draw(t, "routerSubscriberDecorators")
+		want := "user,"
+		for i := 0; i < nd; i++ {
+			id := fmt.Sprintf("r%d", i)
+			want += id + ","
+			router.AddSubscriberDecorators(message.MessageTransformSubscriberDecorator(tag(id)))
+		}
+		nh := rapid.IntRange(2, 4).Draw(t, "handlers")
+		var mu sync.Mutex
+		seen := map[string][]string{}
+		for i := 0; i < nh; i++ {
+			name := fmt.Sprintf("h%d", i)
+			router.AddNoPublisherHandler(name, "topic-"+name, shared, func(m *message.Message) error {
+				mu.Lock()
+				seen[name] = append(seen[name], m.Metadata["subdec"]+"|"+message.HandlerNameFromCtx(m.Context()))
+				mu.Unlock()
+				return nil
+			})
+		}
+		go router.Run(context.Background())
+		select {
+		case <-router.Running():
+		case <-time.After(lib.Live):
+			t.Fatalf("harness: router did not start")
+		}
+		defer func() {
+			done := make(chan struct{})
+			go func() { router.Close(); close(done) }()
+			select {
+			case <-done:
+			case <-time.After(lib.Live):
+			}
+		}()
+		rounds := rapid.IntRange(1, 2).Draw(t, "rounds")
+		for r := 0; r < rounds; r++ {
+			for _, sc := range inner.Subs() {
+				m := message.NewMessage("m", nil)
+				d, ok := sc.Emit(m, "", 0, lib.Live)
+				if !ok {
+					t.Fatalf("harness: message not taken")
+				}
+				if acked, settled := d.Wait(2 * lib.Live); !settled || !acked {
+					t.Fatalf("violation: message on %s not acked", sc.Topic)
+				}
+			}
+		}
+		mu.Lock()
+		defer mu.Unlock()
+		for i := 0; i < nh; i++ {
+			name := fmt.Sprintf("h%d", i)
+			if len(seen[name]) != rounds {
+				t.Fatalf("violation: handler %s handled %d messages, %d were sent on its topic", name, len(seen[name]), rounds)
+			}
+			for _, s := range seen[name] {
+				if s != want+"|"+name {
+					t.Fatalf("violation: handler %s saw decorators/context [%s], expected [%s|%s] (%d handlers share one message-transforming subscriber)", name, s, want, name, nh)
+				}
+			}
+		}
+		lib.Case(fmt.Sprintf("shared-sub|%d|%d|%d", nd, nh, rounds), true, "shared-decorated-subscriber")
+		lib.Sample(map[string]any{"test": "SharedDecoratedSubscriber", "router_decorators": nd, "handlers": nh})
+	})
 }
